@@ -169,6 +169,15 @@ PumpLinear ==
        /\ \A i \in DOMAIN L : L[i].after > L[i].before /\ (i > 1 => L[i].before = L[i - 1].after)
   /\ Len(Check(w).passes) <= 5
 
+\* C09: cycles.  Every scan step starts in the lexer's dispatch loop; the bytes between the starts of two
+\* scan steps took the lexer round a cycle.  <<p, q>> : s[0..p) (s[p..q))^k is a timing family.
+CyclesOf(fl) ==
+  LET L == LexAll(s, fl) IN
+  UNION { { <<L[i].before, L[j].before>> : j \in (i + 1)..Len(L) } : i \in 1..Len(L) }
+Cycles == UNION {CyclesOf(fl) : fl \in {9, 17, 10, 20}}
+\* progress (C16, model level): scan steps start at strictly increasing offsets
+StepsAdvance == \A fl \in {9, 17, 10, 20} : LET L == LexAll(s, fl) IN \A i \in 1..Len(L) : L[i].after > L[i].before
+
 Prop ==
   stage = 1 =>
   CASE Mode \in {"case", "casekw"} -> CaseInsensitive
@@ -177,6 +186,7 @@ Prop ==
     [] Mode = "c18"   -> LiteralEndsAtFirstTerminator
     [] Mode = "c03"   -> IsSQLiSpec(s)
     [] Mode = "pump"  -> PumpLinear
+    [] Mode = "cycle" -> StepsAdvance
 
 Export ==
   (DoExport /\ stage = 1) =>
@@ -190,5 +200,6 @@ Export ==
            PrintT(ToJson([in |-> s, kind |-> OpenerKind.k, idx |-> OpenerKind.idx,
                           exp |-> [fl \in LitFlags |-> LitExpect(fl)], flags |-> SetToSeq(LitFlags)]))
       [] Mode = "c03" -> PrintT(ToJson([in |-> s, pred |-> Check(s)]))
+      [] Mode = "cycle" -> Cycles = {} \/ PrintT(ToJson([in |-> s, cyc |-> SetToSeq(Cycles)]))
       [] Mode = "pump" -> n = x.o \/ PrintT(ToJson([pre |-> SubSeq(s, 1, x.o), rep |-> SubSeq(s, x.o + 1, n)]))
 ====
